@@ -500,6 +500,12 @@ def live_names(spec):
     return [n for n, e in spec["objs"].items() if e["cls"] != "UsagePattern" or n in spec["system"]]
 
 
+ZERO_OK = {"user_time_spent", "data_transferred", "data_stored", "base_storage_need", "idle_power",
+           "base_ram_consumption", "base_compute_consumption", "carbon_footprint_fabrication",
+           "carbon_footprint_fabrication_per_storage_capacity", "power", "power_per_storage_capacity", "ram_needed",
+           "compute_needed", "average_carbon_intensity", "bandwidth_energy_intensity", "fraction_of_usage_time"}
+
+
 @st.composite
 def quantity_edit(draw, spec, names=None, again=None):
     """``again``: (obj, attr) pairs edited earlier in the history; re-editing one of them (accumulation, aliasing and
@@ -511,15 +517,29 @@ def quantity_edit(draw, spec, names=None, again=None):
         if draw(st.floats(0, 1)) < 0.85 and any(n in used for n in names):
             names = [n for n in names if n in used]
     again = [x for x in (again or []) if x[0] in names]
+    zeros = sorted((n_, a_) for n_ in names for a_ in S.quantity_inputs(spec["objs"][n_]["cls"])
+                   if isinstance(spec["objs"][n_].get(a_), list) and spec["objs"][n_][a_][0] == 0)
+    force_fresh = False
     if again and draw(st.floats(0, 1)) < 0.3:
         n, a = draw(st.sampled_from(again))
+    elif zeros and draw(st.floats(0, 1)) < 0.15:
+        # an input that is currently zero gets a value: what was empty so far comes to life
+        n, a = draw(st.sampled_from(zeros))
+        force_fresh = True
     else:
         n = draw(st.sampled_from(sorted(names)))
         a = draw(st.sampled_from(S.quantity_inputs(spec["objs"][n]["cls"])))
     e = spec["objs"][n]
     cls = e["cls"]
     cur = e.get(a) or S.default_quantity(cls, a)
-    mode = draw(st.sampled_from(["factor", "factor", "factor", "fresh", "fresh", "reexpress"]))
+    mode = draw(st.sampled_from(["factor", "factor", "factor", "fresh", "fresh", "reexpress", "zero"]))
+    if force_fresh:
+        mode = "fresh"
+    if mode == "zero":
+        # inputs for which zero is a meaningful value (no user time, nothing stored, no idle power, ...)
+        if a in ZERO_OK and cur[0] != 0:
+            return dict(op="q", obj=n, attr=a, val=[0.0, cur[1]])
+        mode = "factor"
     if mode == "reexpress":
         # the same physical value written in another unit of its family: an edit that must change nothing
         alts = unit_alternatives(cur[1])
